@@ -6,5 +6,10 @@ From Coq Require Extraction ExtrOcamlBasic.
 From FP.Model Require Import Sem.
 From FP.Gen Require Import Programs.
 From FP.Extract Require Import Driver.
+From FP.Model Require Import Cost.
+From FP.Theory Require Import Infer.
+(* the schemas recognised in the translated programs, computed once; the allocation model runs on them *)
+Definition gen_schemas : list sdef := match infer_env env with Some ss => ss | None => nil end.
+Definition gen_decode_cost (t : N) (buf : list byte) : N := decode_cost tables gen_schemas t buf.
 Extraction Language OCaml.
-Extraction "model.ml" run_op gen_world n2b b2n.
+Extraction "model.ml" run_op gen_world n2b b2n gen_decode_cost.
